@@ -23,7 +23,8 @@ EXPLANATION = (
     "branches on data values (only on counts and line kinds); read_elast_data folded on reference tables (with and without "
     "lattice block, upper-case / prefixed column names, reordered columns) returns the tabulated reference volume, count, "
     "cell mass, per-volume components under canonical keys and the lattice rows; `cij fill` echoes line 1 and 2, hands "
-    "exactly N+1 lines to the table parser, prints the filled table without index and echoes the rest.")
+    "exactly N+1 lines to the table parser, prints the filled table without index and echoes the rest; every reader, writer and re-emitter "
+    "of these formats opens its file with one text encoding (R17.6).")
 NOT_DECIDED = "round-trip equality for values outside the written precision/width (formatting overflow above 1e5 is a numerical matter)."
 ASSUMPTIONS = ["documented formats of the phonon data file and static table (reference texts written out in the rule)"]
 
